@@ -400,9 +400,32 @@ pub fn profile_digest_line(ctx: &crate::props::Ctx, i: u64) -> String {
     let rseed = mix(&[ctx.seed, crate::rng::tag("c16-digest"), i]);
     let mut r = Rng::new(rseed);
     let buggy = r.chance(1, 4);
-    let base = crate::props::gen_base(ctx, &mut r, buggy, 30, 64 << 10);
+    let family = r.below(12);
+    let base = if family == 0 {
+        // hot-reload family: sprites of one of two shapes that differ only in palette colours and
+        // pixel values; anything keyed on buffer addresses or shapes that outlives a sprite shows
+        // up as a digest that depends on which runs preceded this one in the process
+        same_shape_indexed(&mut r)
+    } else {
+        crate::props::gen_base(ctx, &mut r, buggy, 30, 64 << 10)
+    };
     let mut bytes = base.bytes.clone();
-    if r.chance(1, 4) {
+    if family == 1 {
+        // canvas / header extremes on files that have tilemaps and linked cels
+        let fields: Vec<&format::Field> = base
+            .map
+            .fields
+            .iter()
+            .filter(|f| f.chunk == "header" && matches!(f.name, "width" | "height" | "transparent-index" | "speed" | "num-colors"))
+            .collect();
+        if !fields.is_empty() {
+            let f = *r.pick(&fields);
+            let cur = format::get(&bytes, f.off, f.width);
+            let vals = crate::faults::boundary_values(f.width, cur, &[]);
+            let v = *r.pick(&vals);
+            format::put(&mut bytes, f.off, f.width, v);
+        }
+    } else if r.chance(1, 4) {
         let other = crate::props::gen_base(ctx, &mut r, false, 0, 64 << 10);
         let (edits, _) = crate::faults::gen_faults(&mut r, &base.bytes, &base.map, &other.bytes, &["field", "bitflip", "byte-set"]);
         let mut p = Plan::new("C16", "threads", ctx.seed, i);
@@ -524,4 +547,142 @@ pub fn miri_c16(seed: u64, n: u64) {
         }
     }
     println!("miri-c16 ok seed={} cases={}", seed, n);
+}
+
+fn same_shape_indexed(r: &mut Rng) -> crate::props::Base {
+    use crate::spec::*;
+    let side: u16 = if r.chance(1, 2) { 128 } else { 144 };
+    let ncol = 8usize;
+    let s = SpriteSpec {
+        width: side,
+        height: side,
+        fmt: Fmt::Indexed,
+        transparent: 0,
+        durations: vec![100],
+        layers: vec![LayerSpec {
+            flags: 1,
+            kind: 0,
+            tileset: 0,
+            level: 0,
+            blend: 0,
+            opacity: 255,
+            name: "bg".into(),
+            ud: None,
+        }],
+        palette: Some(PaletteSpec {
+            first: 0,
+            entries: (0..ncol).map(|_| ([r.byte(), r.byte(), r.byte(), 255], None)).collect(),
+        }),
+        legacy: None,
+        tilesets: Vec::new(),
+        cels: vec![CelSpec {
+            frame: 0,
+            layer: 0,
+            x: 0,
+            y: 0,
+            opacity: 255,
+            body: CelBody::Raw {
+                w: side,
+                h: side,
+                pixels: (0..side as usize * side as usize).map(|i| ((i / 7) % ncol) as u8).collect(),
+                compressed: true,
+                level: 6,
+            },
+            ud: None,
+            extra: false,
+        }],
+        tags: Vec::new(),
+        tag_ud_count: 0,
+        slices: Vec::new(),
+        ext_files: Vec::new(),
+        color_profile: None,
+        sprite_ud: None,
+        header_frames_override: None,
+    };
+    let bytes = encode(&s, &EncOpts { seed: 1, neutral: false });
+    let map = format::walk(&bytes);
+    crate::props::Base {
+        desc: format!("same-shape-indexed:{}", side),
+        bytes,
+        map,
+        bug: None,
+    }
+}
+
+/// C16 part 3c (complement, NOT schedule-deterministic): free-running OS threads hammer a shared
+/// `&AsepriteFile`; every result is compared with the sequential memo. The oracle is sound under
+/// any schedule (an immutable value has one answer per call), so this can never raise a false
+/// alarm, but which interleavings occur is up to the OS: a hit is replayed by re-running the same
+/// stress and is reported as reproduced only if it hits again.
+pub fn stress_c16(ctx: &crate::props::Ctx, i: u64, threads: usize, iters: usize) -> Option<String> {
+    use crate::rng::mix;
+    let rseed = mix(&[ctx.seed, crate::rng::tag("c16-stress"), i]);
+    let mut r = Rng::new(rseed);
+    // prefer sprites with several frames and layers
+    let mut base = crate::props::gen_base(ctx, &mut r, false, 20, 64 << 10);
+    for _ in 0..6 {
+        if base.map.num_frames_declared >= 2 && base.map.cels.len() >= 2 {
+            break;
+        }
+        base = crate::props::gen_base(ctx, &mut r, false, 20, 64 << 10);
+    }
+    let l = catch_unwind(AssertUnwindSafe(|| load(&base.bytes, Wrapper::Slice, &ReaderPlan::default(), None, false, false).0));
+    let f = match l {
+        Ok(l) => match l.result {
+            Ok(f) => f,
+            Err(_) => return None,
+        },
+        Err(_) => return None,
+    };
+    let costs = costs_for(&base.map, COST_CAP);
+    let (nl, nf) = (f.num_layers(), f.num_frames());
+    let mut ops: Vec<Op> = Vec::new();
+    for fr in 0..nf.min(8) {
+        ops.push(Op::FrameImage(fr));
+        ops.push(Op::FrameInfo(fr));
+        for la in 0..nl.min(4) {
+            ops.push(Op::CelImage(fr, la));
+            ops.push(Op::CelInfo(fr, la));
+        }
+    }
+    for la in 0..nl.min(6) {
+        ops.push(Op::LayerInfo(la));
+        ops.push(Op::VisibleChain(la));
+    }
+    ops.extend([Op::Meta, Op::Palette, Op::Tags, Op::Slices, Op::Tilesets, Op::TilesetImage(0), Op::TilemapSweep(0, 0), Op::TilemapImage(0, 0)]);
+    let memo: Vec<Out> = ops.iter().map(|op| exec_out(&f, op, &costs)).collect();
+    let bad: Mutex<Option<String>> = Mutex::new(None);
+    let stop = std::sync::atomic::AtomicBool::new(false);
+    std::thread::scope(|s| {
+        for k in 0..threads {
+            let (fr, opsr, memor, costsr, badr, stopr, descr) = (&f, &ops, &memo, &costs, &bad, &stop, &base.desc);
+            let mut tr = Rng::new(rseed ^ (k as u64 + 1).wrapping_mul(0x9E37));
+            s.spawn(move || {
+                for _ in 0..iters {
+                    if stopr.load(std::sync::atomic::Ordering::Relaxed) {
+                        return;
+                    }
+                    let idx = tr.usize_below(opsr.len());
+                    let o = exec_out(fr, &opsr[idx], costsr);
+                    if o != memor[idx] {
+                        stopr.store(true, std::sync::atomic::Ordering::Relaxed);
+                        let mut g = badr.lock().unwrap();
+                        if g.is_none() {
+                            *g = Some(format!(
+                                "run {} thread {} op {:?}: sequential {} ; concurrent {} ; base {}",
+                                i,
+                                k,
+                                opsr[idx],
+                                memor[idx].show(),
+                                o.show(),
+                                descr
+                            ));
+                        }
+                        return;
+                    }
+                }
+            });
+        }
+    });
+    bad.into_inner().unwrap()
 }
